@@ -329,6 +329,26 @@ class ObjT(T):
         return {"t": "opaque", "tag": self.tag}
 
 
+class InstT(T):
+    """instance of a repository class (self): a fresh object with no attributes (for __init__) or with the
+    attributes declared by the contract's field(...) clauses"""
+
+    def __init__(self, cls, **fields):
+        self.cls = cls
+        self.fields = fields
+
+    def family(self, name, ctx, psorts):
+        def make(p):
+            o = VObj(self.cls, attrs={"__repo_instance__": True})
+            for f, t in self.fields.items():
+                o.attrs[f] = t.fresh(f"{name}_{f}", ctx)
+            return o
+        return make
+
+    def decode(self, model, value):
+        return {"t": "opaque", "tag": self.cls}
+
+
 class FnT(T):
     """Uninterpreted callable parameter."""
 
@@ -364,6 +384,10 @@ Real = RealT()
 Str = StrT()
 Bool = BoolT()
 NoneType = NoneT()
+
+
+def Inst(cls, **fields):
+    return InstT(cls, **fields)
 
 
 def Const(v):
